@@ -41,6 +41,7 @@ use vcore::{
 const SIG_JOIN_LOST: &str = "C04/join/remote-handle-not-woken-on-completion";
 const SIG_UAF_FINISHED: &str = "C04/teardown/shared-freed-under-remote-schedule-of-finished-task";
 const SIG_CANCEL_LOST: &str = "C04/cancel/remote-handle-drop-never-takes-effect";
+const SIG_CANCEL_IDLE: &str = "C04/cancel/remote-handle-drop-while-executor-idle-never-takes-effect";
 const SIG_UAF_LIVE: &str = "C04/teardown/shared-freed-under-remote-schedule-of-live-task";
 const SIG_UAF_LIVE_TWO: &str = "C04/teardown/shared-freed-under-two-concurrent-remote-schedules";
 
@@ -92,6 +93,22 @@ pub struct TaskSpec {
     /// the waker thread keeps one more clone and wakes it at the very end (task finished or executor gone)
     pub stale_wake: bool,
     pub handle: HandleProg,
+    /// `RemotePoll`: after a `Pending` the handle thread polls again with the *same* waker this many
+    /// times without having been woken (spurious wake-ups), before it really waits
+    #[serde(default)]
+    pub repolls: u8,
+    /// remote drop / cancel / poll-then-drop: the harness holds the executor thread idle (nothing hot,
+    /// not ticking) from before the remote call until it has returned; the task's waker thread, if
+    /// any, wakes only afterwards.  The task is then still parked when its handle goes away, and the
+    /// race of "run between schedule() and set_cancelled()" cannot occur.
+    #[serde(default)]
+    pub quiet_cancel: bool,
+}
+
+impl TaskSpec {
+    fn cancels_remotely(&self) -> bool {
+        matches!(self.handle, HandleProg::RemoteDrop { .. } | HandleProg::RemoteCancel { .. } | HandleProg::RemotePollOnceThenDrop)
+    }
 }
 
 #[derive(Debug, Clone, Copy, Serialize, Deserialize, PartialEq)]
@@ -118,7 +135,7 @@ pub struct XCase {
 }
 
 fn task_strategy() -> impl Strategy<Value = TaskSpec> + Clone {
-    (0u8..=2, any::<bool>(), 0u8..4, 0u8..6, any::<bool>(), 0u8..12, 0u8..3).prop_map(|(yields, park, end, rw, stale_wake, h, y)| {
+    (0u8..=2, any::<bool>(), 0u8..4, 0u8..6, any::<bool>(), 0u8..12, 0u8..3, 0u8..4, any::<bool>()).prop_map(|(yields, park, end, rw, stale_wake, h, y, repolls, quiet_cancel)| {
         let end = if end == 3 { End::Panic } else { End::Return };
         let mut remote_wake = match rw {
             0 | 1 => RemoteWake::None,
@@ -138,7 +155,9 @@ fn task_strategy() -> impl Strategy<Value = TaskSpec> + Clone {
             9 | 10 => HandleProg::RemoteCancel { yields: y },
             _ => HandleProg::RemoteDetach,
         };
-        TaskSpec { yields, park, end, remote_wake, stale_wake, handle }
+        // two of four remote waiters re-poll spuriously (1 or 2 times)
+        let repolls = if handle == HandleProg::RemotePoll { repolls.saturating_sub(1) } else { 0 };
+        TaskSpec { yields, park, end, remote_wake, stale_wake, handle, repolls, quiet_cancel }
     })
 }
 
@@ -167,7 +186,9 @@ fn case_strategy(tier: Tier, known: Known) -> impl Strategy<Value = XCase> + Clo
             // known finding: a parked task whose handle is dropped / cancelled remotely can get stuck -
             // excluded by construction: such tasks do not park (they still yield)
             for t in tasks.iter_mut() {
-                if t.park && matches!(t.handle, HandleProg::RemoteDrop { .. } | HandleProg::RemoteCancel { .. } | HandleProg::RemotePollOnceThenDrop) {
+                // (kept: the sub-class in which the executor thread is held idle during the remote call -
+                // there the race cannot happen and the cancel must take effect)
+                if t.park && t.cancels_remotely() && !t.quiet_cancel {
                     t.park = false;
                 }
             }
@@ -195,6 +216,8 @@ struct TaskStats {
     payload_drops: AtomicU64,
     payload_delivered: AtomicU64,
     handle_dropped: AtomicBool,
+    /// the remote thread is through with the handle (dropped, cancelled, or resolved)
+    handle_op_done: AtomicBool,
     polls_after_handle_drop: AtomicU64,
     msg: AtomicU64,
 }
@@ -208,6 +231,10 @@ struct XStats {
     overlaps: AtomicU64,
     /// handle pending at teardown that nobody woke (observation, not asserted)
     unwoken_at_teardown: AtomicU64,
+    spurious_repolls: AtomicU64,
+    /// remote cancels that ran while the executor thread was held idle and the task was parked
+    quiet_cancels_of_parked: AtomicU64,
+    gate: Gate,
     /// per task: remote operations that may be inside `Remote::schedule` right now
     busy: Vec<AtomicUsize>,
     /// per task: a handle thread that cancels and a waker thread both exist
@@ -246,6 +273,52 @@ impl XStats {
     fn mid_flight(&self, i: usize) -> bool {
         let t = &self.t[i];
         t.polls.load(Ordering::SeqCst) > 0 && !t.finished.load(Ordering::SeqCst) && t.fut_drops.load(Ordering::SeqCst) == 0
+    }
+}
+
+/// Harness gate for `quiet_cancel`: (open?, gated remote calls that have returned)
+struct Gate {
+    m: shuttle::sync::Mutex<(bool, usize)>,
+    cv: shuttle::sync::Condvar,
+}
+
+impl Gate {
+    fn wait_open(&self) {
+        let mut g = self.m.lock().unwrap();
+        while !g.0 {
+            g = self.cv.wait(g).unwrap();
+        }
+    }
+
+    fn open(&self) {
+        self.m.lock().unwrap().0 = true;
+        self.cv.notify_all();
+    }
+
+    fn done(&self) {
+        self.m.lock().unwrap().1 += 1;
+        self.cv.notify_all();
+    }
+
+    fn wait_done(&self, n: usize) {
+        let mut g = self.m.lock().unwrap();
+        while g.1 < n {
+            g = self.cv.wait(g).unwrap();
+        }
+    }
+
+    /// block until `f()` holds (re-evaluated whenever the gate is signalled)
+    fn wait_until(&self, f: impl Fn() -> bool) {
+        let mut g = self.m.lock().unwrap();
+        while !f() {
+            g = self.cv.wait(g).unwrap();
+        }
+    }
+
+    fn signal(&self) {
+        let g = self.m.lock().unwrap();
+        drop(g);
+        self.cv.notify_all();
     }
 }
 
@@ -432,26 +505,27 @@ fn account(st: &XStats, i: usize, r: Result<Out, JoinError>) -> &'static str {
 }
 
 /// Drive a join handle (or `cancel()` future) to the end on a handle thread.
-fn drive<F: Future>(st: &Arc<XStats>, i: usize, fut: F, completion_must_wake: bool) -> (F::Output, bool) {
+fn drive<F: Future>(st: &Arc<XStats>, i: usize, fut: F, completion_must_wake: bool, mut spurious: u8) -> (F::Output, bool) {
     let wc = WakeCounter::new();
     let jw = Arc::new(JoinWaker { wc: wc.clone(), real: AtomicU64::new(0) });
     HANDLE_KICKS.with(|k| k.borrow_mut().push(wc.clone()));
     let waker = Waker::from(jw.clone());
     let mut cx = Context::from_waker(&waker);
     let mut fut = std::pin::pin!(fut);
-    let mut real_before_last_pending: Option<u64> = None;
+    // the poll about to happen was triggered by the harness' end-of-run kick alone: the handle had
+    // returned Pending, really waited, and no real wake-up arrived since before that Pending poll
+    let mut kicked_only = false;
     loop {
         let before = wc.count();
         let real_before = jw.real.load(Ordering::SeqCst);
         let gone_before = st.exe_gone.load(Ordering::SeqCst);
         match fut.as_mut().poll(&mut cx) {
             Poll::Ready(r) => {
-                // resolved after having been pending, without any real wake-up since before that pending poll?
-                let unwoken = real_before_last_pending.is_some_and(|r0| jw.real.load(Ordering::SeqCst) == r0);
-                if unwoken && completion_must_wake {
+                // (a Ready found by a spurious re-poll proves nothing: the executor's wake may still be on its way)
+                if kicked_only && completion_must_wake {
                     return (r, true);
                 }
-                if unwoken {
+                if kicked_only {
                     st.unwoken_at_teardown.fetch_add(1, Ordering::SeqCst);
                 }
                 return (r, false);
@@ -459,10 +533,17 @@ fn drive<F: Future>(st: &Arc<XStats>, i: usize, fut: F, completion_must_wake: bo
             Poll::Pending => {
                 if gone_before {
                     st.note("C04/join/pending-after-executor-dropped", format!("handle of task {i} is still pending although the executor had been dropped before the poll started"));
-                    // cannot obtain a value: park for ever would hide the verdict — spin out through the kick below
                 }
-                real_before_last_pending = Some(real_before);
+                if spurious > 0 {
+                    // a spurious wake-up: poll again with the same waker without having been woken
+                    spurious -= 1;
+                    st.spurious_repolls.fetch_add(1, Ordering::SeqCst);
+                    shuttle::thread::yield_now();
+                    kicked_only = false;
+                    continue;
+                }
                 wc.wait_beyond(before);
+                kicked_only = jw.real.load(Ordering::SeqCst) == real_before;
             }
         }
     }
@@ -505,6 +586,7 @@ fn execution(case: &XCase, verdict: &Arc<Verdict>, cov: &Arc<Coverage>, wait_for
                 payload_drops: AtomicU64::new(0),
                 payload_delivered: AtomicU64::new(0),
                 handle_dropped: AtomicBool::new(false),
+                handle_op_done: AtomicBool::new(false),
                 polls_after_handle_drop: AtomicU64::new(0),
                 msg: AtomicU64::new(0),
             })
@@ -514,6 +596,9 @@ fn execution(case: &XCase, verdict: &Arc<Verdict>, cov: &Arc<Coverage>, wait_for
         verdict: verdict.clone(),
         overlaps: AtomicU64::new(0),
         unwoken_at_teardown: AtomicU64::new(0),
+        spurious_repolls: AtomicU64::new(0),
+        quiet_cancels_of_parked: AtomicU64::new(0),
+        gate: Gate { m: shuttle::sync::Mutex::new((false, 0)), cv: shuttle::sync::Condvar::new() },
         busy: (0..n).map(|_| AtomicUsize::new(0)).collect(),
         two_remote_schedulers: case.tasks.iter().map(|t| t.remote_wake != RemoteWake::None && matches!(t.handle, HandleProg::RemoteDrop { .. } | HandleProg::RemoteCancel { .. } | HandleProg::RemotePollOnceThenDrop)).collect(),
         remote_done: AtomicUsize::new(0),
@@ -532,11 +617,26 @@ fn execution(case: &XCase, verdict: &Arc<Verdict>, cov: &Arc<Coverage>, wait_for
         let h = exe.spawn(TaskFut { i, yields_left: spec.yields, park: spec.park, end: spec.end, st: st.clone(), slot: slots[i].clone(), published: false });
         let stc = st.clone();
         let must_wake = case.end == ExecEnd::UntilIdle;
+        let repolls = spec.repolls;
+        let quiet = spec.quiet_cancel && spec.cancels_remotely();
+        // prologue / epilogue of a remote thread that lets go of a handle
+        let enter = move |stc: &XStats| {
+            if quiet {
+                stc.gate.wait_open();
+                if stc.mid_flight(i) {
+                    stc.quiet_cancels_of_parked.fetch_add(1, Ordering::SeqCst);
+                }
+            }
+        };
+        let leave = move |stc: &XStats| {
+            stc.t[i].handle_op_done.store(true, Ordering::SeqCst);
+            if quiet { stc.gate.done() } else { stc.gate.signal() }
+        };
         match spec.handle {
             HandleProg::Keep => kept.push((i, Some(h))),
             HandleProg::RemotePoll => threads.push(spawn_remote(&st, &ew, move || {
                 stc.op(i);
-                let (r, lost) = drive(&stc, i, h, true);
+                let (r, lost) = drive(&stc, i, h, true, repolls);
                 let completed = matches!(r, Ok(_) | Err(JoinError::Panicked(_)));
                 let what = account(&stc, i, r);
                 if lost && completed {
@@ -550,6 +650,7 @@ fn execution(case: &XCase, verdict: &Arc<Verdict>, cov: &Arc<Coverage>, wait_for
                 false
             })),
             HandleProg::RemotePollOnceThenDrop => threads.push(spawn_remote(&st, &ew, move || {
+                enter(&stc);
                 stc.op(i);
                 let wc = WakeCounter::new();
                 let waker = wc.waker();
@@ -565,27 +666,32 @@ fn execution(case: &XCase, verdict: &Arc<Verdict>, cov: &Arc<Coverage>, wait_for
                         stc.t[i].handle_dropped.store(true, Ordering::SeqCst);
                     }
                 }
+                leave(&stc);
                 false
             })),
             HandleProg::RemoteDrop { yields } => threads.push(spawn_remote(&st, &ew, move || {
                 for _ in 0..yields {
                     shuttle::thread::yield_now();
                 }
+                enter(&stc);
                 stc.op(i);
                 stc.scheduling(i, || drop(h));
                 stc.t[i].handle_dropped.store(true, Ordering::SeqCst);
+                leave(&stc);
                 false
             })),
             HandleProg::RemoteCancel { yields } => threads.push(spawn_remote(&st, &ew, move || {
                 for _ in 0..yields {
                     shuttle::thread::yield_now();
                 }
+                enter(&stc);
                 stc.op(i);
-                let (r, _) = stc.scheduling(i, || drive(&stc, i, h.cancel(), false));
+                let (r, _) = stc.scheduling(i, || drive(&stc, i, h.cancel(), false, 0));
                 stc.t[i].handle_dropped.store(true, Ordering::SeqCst);
                 if let Some(out) = r {
                     account(&stc, i, Ok(out));
                 }
+                leave(&stc);
                 false
             })),
             HandleProg::RemoteDetach => threads.push(spawn_remote(&st, &ew, move || {
@@ -607,6 +713,10 @@ fn execution(case: &XCase, verdict: &Arc<Verdict>, cov: &Arc<Coverage>, wait_for
                 };
                 let Some(w) = w else { return false };
                 let keep = stale.then(|| w.clone());
+                if quiet {
+                    // the handle goes away while the task is still parked; the wake comes afterwards
+                    stc.gate.wait_until(|| stc.t[i].handle_op_done.load(Ordering::SeqCst) || stc.exe_gone.load(Ordering::SeqCst));
+                }
                 stc.op(i);
                 stc.t[i].msg.fetch_add(1, Ordering::SeqCst);
                 stc.scheduling(i, || match kind {
@@ -659,6 +769,8 @@ fn execution(case: &XCase, verdict: &Arc<Verdict>, cov: &Arc<Coverage>, wait_for
     let ewaker = ew.waker();
     let mut ecx = Context::from_waker(&ewaker);
     let mut ticks = 0u32;
+    let gated = case.tasks.iter().filter(|t| t.quiet_cancel && t.cancels_remotely()).count();
+    let mut gate_opened = false;
     loop {
         let before = ew.count();
         if let ExecEnd::DropAfter { ticks: n } = case.end {
@@ -676,6 +788,14 @@ fn execution(case: &XCase, verdict: &Arc<Verdict>, cov: &Arc<Coverage>, wait_for
                 }
             }
         }
+        if !gate_opened && !exe.has_task() {
+            // The executor is idle (nothing hot).  Hold it here - not ticking - while the `quiet_cancel`
+            // remote calls run, and resume only after all of them have returned.
+            gate_opened = true;
+            st.gate.open();
+            st.gate.wait_done(gated);
+            continue;
+        }
         if case.end == ExecEnd::UntilIdle {
             let all_gone = st.t.iter().all(|t| t.fut_drops.load(Ordering::SeqCst) >= 1);
             if all_gone && kept.iter().all(|(_, h)| h.is_none()) {
@@ -688,7 +808,10 @@ fn execution(case: &XCase, verdict: &Arc<Verdict>, cov: &Arc<Coverage>, wait_for
                     for (i, t) in st.t.iter().enumerate() {
                         if t.fut_drops.load(Ordering::SeqCst) == 0 {
                             if t.handle_dropped.load(Ordering::SeqCst) {
-                                st.note(SIG_CANCEL_LOST, format!("task {i}: its JoinHandle was dropped / cancelled on another thread, but the executor never runs the task again, so its future (polled {} times, parked) is neither polled nor dropped until the executor itself is dropped", t.polls.load(Ordering::SeqCst)));
+                                // with the executor held idle during the remote call nothing can run the task
+                                // between schedule() and set_cancelled(): a different defect than the listed race
+                                let sig = if case.tasks[i].quiet_cancel && case.tasks[i].cancels_remotely() { SIG_CANCEL_IDLE } else { SIG_CANCEL_LOST };
+                                st.note(sig, format!("task {i}: its JoinHandle was dropped / cancelled on another thread, but the executor never runs the task again, so its future (polled {} times, parked) is neither polled nor dropped until the executor itself is dropped", t.polls.load(Ordering::SeqCst)));
                             } else {
                                 st.note("C04/executor/idle-with-unfinished-task", format!("task {i} (polled {} times, message sent: {}) is neither runnable nor finished and nobody is left to wake it", t.polls.load(Ordering::SeqCst), t.msg.load(Ordering::SeqCst)));
                             }
@@ -709,6 +832,10 @@ fn execution(case: &XCase, verdict: &Arc<Verdict>, cov: &Arc<Coverage>, wait_for
         if verdict.is_set() {
             break;
         }
+    }
+    if !gate_opened {
+        // the loop ended before the executor was ever idle: the gated calls now simply race with the rest
+        st.gate.open();
     }
     for (i, _) in kept.iter() {
         if st.mid_flight(*i) {
@@ -756,6 +883,7 @@ fn execution(case: &XCase, verdict: &Arc<Verdict>, cov: &Arc<Coverage>, wait_for
     }
     // end of run: tell everybody, kick pending handle threads (redundant if nothing was lost)
     st.exe_gone.store(true, Ordering::SeqCst);
+    st.gate.signal();
     for s in &slots {
         let g = s.m.lock().unwrap();
         drop(g);
@@ -787,6 +915,8 @@ fn execution(case: &XCase, verdict: &Arc<Verdict>, cov: &Arc<Coverage>, wait_for
     }
     cov.overlaps.fetch_add(st.overlaps.load(Ordering::SeqCst), Ordering::Relaxed);
     cov.unwoken_at_teardown.fetch_add(st.unwoken_at_teardown.load(Ordering::SeqCst), Ordering::Relaxed);
+    cov.spurious_repolls.fetch_add(st.spurious_repolls.load(Ordering::SeqCst), Ordering::Relaxed);
+    cov.quiet_cancels_of_parked.fetch_add(st.quiet_cancels_of_parked.load(Ordering::SeqCst), Ordering::Relaxed);
     if verdict.is_set() {
         panic!("oracle verdict recorded");
     }
@@ -804,6 +934,8 @@ struct Coverage {
     overlaps: AtomicU64,
     exec_dropped_mid_flight: AtomicU64,
     unwoken_at_teardown: AtomicU64,
+    spurious_repolls: AtomicU64,
+    quiet_cancels_of_parked: AtomicU64,
 }
 
 // ------------------------------------------------------------------------------------------------
@@ -857,6 +989,12 @@ fn run_case(case: &XCase) -> Outcome {
     if cov.exec_dropped_mid_flight.load(Ordering::Relaxed) > 0 {
         labels.push("executor-dropped-while-task-mid-flight".into());
     }
+    if cov.spurious_repolls.load(Ordering::Relaxed) > 0 {
+        labels.push("remote-handle-repolled-with-same-waker".into());
+    }
+    if cov.quiet_cancels_of_parked.load(Ordering::Relaxed) > 0 {
+        labels.push("remote-cancel-of-parked-task-while-executor-idle".into());
+    }
     if cov.unwoken_at_teardown.load(Ordering::Relaxed) > 0 {
         labels.push("observation:remote-handle-not-woken-by-executor-teardown".into());
     }
@@ -868,7 +1006,7 @@ fn run_case(case: &XCase) -> Outcome {
 static SCHEDULES: AtomicU64 = AtomicU64::new(0);
 
 fn ts(yields: u8, park: bool, end: End, remote_wake: RemoteWake, stale_wake: bool, handle: HandleProg) -> TaskSpec {
-    TaskSpec { yields, park, end, remote_wake, stale_wake, handle }
+    TaskSpec { yields, park, end, remote_wake, stale_wake, handle, repolls: 0, quiet_cancel: false }
 }
 
 fn main() {
@@ -883,7 +1021,8 @@ fn main() {
         "case = max_interval {1,2,61} x 1-3 tasks, each {0-2 self-wakes, optional park until a message from a waker thread, return or panic} \
          x what happens to its JoinHandle {kept and polled on the executor thread, polled to the end on another thread, polled once then \
          dropped there, dropped there, cancel().await there, detached there} x optional waker thread {wake, wake_by_ref, clone and wake both; \
-         optionally a stale wake after everything is over} x executor thread {ticks until every future is gone (sleeping on its waker), or \
+         optionally a stale wake after everything is over} x {a remote waiter re-polls 0-2 times with the same waker without having been woken} x \
+         {a remote drop / cancel runs while the harness holds the executor thread idle, the waker thread waking only afterwards} x executor thread {ticks until every future is gone (sleeping on its waker), or \
          drops the executor after 0-3 ticks; kept handles dropped before or after it} x 40 random + 20 PCT(depth 3) shuttle schedules per case \
          (thorough 200 + 100), seeds stored in the case. Non-trivial = in at least one explored schedule a handle / waker operation or the \
          executor drop happened while a task had been polled and was not finished; distinct = distinct serialised case.",
@@ -900,7 +1039,7 @@ fn main() {
     ];
     let mut excluded = vec![];
     if known.cancel_lost {
-        excluded.push("parked task whose JoinHandle is dropped / cancelled on another thread (cancel can be lost) - known finding, regression case only; such tasks do not park");
+        excluded.push("parked task whose JoinHandle is dropped / cancelled on another thread (cancel can be lost) - known finding, regression case only; such tasks do not park, except in the sub-class where the harness holds the executor thread idle during the remote call (there the race cannot occur and the cancel must take effect)");
     }
     if known.uaf_finished {
         excluded.push("executor dropped while a remote operation that began before its task finished is still inside Remote::schedule (use-after-free of Shared) - known finding, regression case only; the executor thread waits for those operations before the teardown");
@@ -919,6 +1058,11 @@ fn main() {
         ("remote-drop-of-parked-task", XCase { sched_seed: 26, schedules: 2000, max_interval: 1, tasks: vec![ts(0, true, End::Return, RemoteWake::Wake, false, HandleProg::RemotePollOnceThenDrop)], end: ExecEnd::UntilIdle, kept_dropped_first: false, teardown_waits: true }),
         // the same scenarios with the teardown race excluded must hold
         ("concurrent-cancel-and-run-teardown-waits", XCase { sched_seed: 27, schedules: 600, max_interval: 61, tasks: vec![ts(1, false, End::Return, RemoteWake::None, false, HandleProg::RemoteDrop { yields: 0 })], end: ExecEnd::UntilIdle, kept_dropped_first: true, teardown_waits: true }),
+        // a JoinHandle re-polled on another thread with the same waker (spurious wake-ups) while the task completes
+        ("remote-repoll-same-waker", XCase { sched_seed: 28, schedules: 2000, max_interval: 61, tasks: vec![TaskSpec { repolls: 2, ..ts(0, false, End::Return, RemoteWake::None, false, HandleProg::RemotePoll) }, TaskSpec { repolls: 1, ..ts(1, false, End::Panic, RemoteWake::None, false, HandleProg::RemotePoll) }], end: ExecEnd::UntilIdle, kept_dropped_first: true, teardown_waits: true }),
+        // handle of a parked task dropped / cancelled on another thread while the executor thread is idle:
+        // the next ticks must drop the future
+        ("remote-drop-of-parked-task-executor-idle", XCase { sched_seed: 29, schedules: 300, max_interval: 2, tasks: vec![TaskSpec { quiet_cancel: true, ..ts(0, true, End::Return, RemoteWake::Wake, false, HandleProg::RemoteDrop { yields: 0 }) }, TaskSpec { quiet_cancel: true, ..ts(1, true, End::Return, RemoteWake::WakeByRef, false, HandleProg::RemoteCancel { yields: 1 }) }, TaskSpec { quiet_cancel: true, ..ts(0, true, End::Panic, RemoteWake::Wake, false, HandleProg::RemotePollOnceThenDrop) }], end: ExecEnd::UntilIdle, kept_dropped_first: true, teardown_waits: true }),
         ("panic-and-remote-drop", XCase { sched_seed: 25, schedules: 600, max_interval: 2, tasks: vec![ts(1, false, End::Panic, RemoteWake::None, false, HandleProg::RemoteDrop { yields: 1 }), ts(2, false, End::Return, RemoteWake::None, false, HandleProg::Keep)], end: ExecEnd::UntilIdle, kept_dropped_first: false, teardown_waits: false }),
     ];
     let tier = s.tier();
